@@ -1,10 +1,152 @@
-import StoneVerif.Model.Rt.Compat
-/-! Property theorems for C07 (backwards-compatible changes keep peers interoperable). -/
+import StoneVerif.Lemmas.RtCompatFwd4
+/-!
+Property theorems for C07: backwards-compatible changes (docs/evolve_spec.rst) keep peers interoperable.
+
+Setting: two environments `A` (older spec) and `B` (newer spec), a one-to-one correspondence `ρ` between their class
+references, and `subB ρ A B tA tB` ("A is an older version of B at this type": `compatEnv ρ A B` — every related pair
+of classes differs only by listed compatible changes — and `tySub ρ tA tB`), all from `Model/Rt/Compat.lean`.
+`view ρ A tA v` is the A-view of a B-value (unknown fields dropped, unknown tags read as the catch-all with `None`,
+unknown subtypes read as the base struct, payloads of tags that are Void in A forgotten).
+
+Hypotheses on the environments (each evaluated by the driver on every pair the harness generates):
+`envWF` of both (what an accepted spec guarantees), `envWFX A` and `envWFU B` (a subclass inherits its ancestors'
+attribute descriptors unchanged).
+-/
 namespace StoneVerif.C07
 open StoneVerif.Rt StoneVerif.Rt.Compat
 
+/-- the hypotheses about the two environments, bundled -/
+def Ctx (ρ : Rho) (A B : Env) : Prop := StoneVerif.Rt.Compat.Ctx ρ A B
+
+theorem ctx_of {ρ : Rho} {A B : Env} {tA tB : PTy} (hs : subB ρ A B tA tB = true)
+    (hA : envWF A = true) (hB : envWF B = true) (hxA : envWFX A = true) (huB : envWFU B = true) :
+    StoneVerif.Rt.Compat.Ctx ρ A B ∧ tySub ρ tA tB = true := by
+  simp only [subB, Bool.and_eq_true] at hs
+  exact ⟨⟨hs.1, hA, hB, hxA, huB⟩, hs.2⟩
+
+/-- FORWARD COMPATIBILITY, message form (full generality: every type, every nesting, both of B's modes).
+Whatever document the decoder of the newer spec accepts — in particular everything its encoder writes — the lenient
+decoder of the older spec accepts as well, and what it builds is the A-view of what the newer decoder built: unknown
+fields dropped, unknown tags read as the catch-all, unknown subtypes read as the base struct, payloads of tags that are
+Void in the older spec ignored. -/
+theorem forward_compat_msg (E : Ext) {ρ : Rho} {A B : Env} {tA tB : PTy} (hs : subB ρ A B tA tB = true)
+    (hA : envWF A = true) (hB : envWF B = true) (hxA : envWFX A = true) (huB : envWFU B = true)
+    (hw : tyWF A tA = true) (j : JVal) (sB : Bool) (w : PyVal)
+    (h : decode E B [] sB tB j = .ok w) :
+    decode E A [] false tA j = .ok (view ρ A tA w) := by
+  obtain ⟨cx, hty⟩ := ctx_of hs hA hB hxA huB
+  exact decode_sub E cx j tA tB sB w hty hw h
+
+/-- FORWARD COMPATIBILITY, wire form.  `hrt` is the round trip of the newer spec on its own message (C04 / C05 for B:
+`decode (wire v)` succeeds); given that, the older spec reads the message as the A-view of what B itself reads back.
+Full statement of DESIGN.md (`decode E A [] false tA (wire E B tB v) = .ok (view ρ A tA v)` from `validB` / `normalB`)
+= this theorem + C04's round-trip theorem for B (`w` equal to `v` up to `pyEq`), which is not available yet: hence
+`_partial`. -/
+theorem forward_compat_partial (E : Ext) {ρ : Rho} {A B : Env} {tA tB : PTy} (hs : subB ρ A B tA tB = true)
+    (hA : envWF A = true) (hB : envWF B = true) (hxA : envWFX A = true) (huB : envWFU B = true)
+    (hw : tyWF A tA = true) (v w : PyVal) (sB : Bool)
+    (hrt : decode E B [] sB tB (wire E B tB v) = .ok w) :
+    decode E A [] false tA (wire E B tB v) = .ok (view ρ A tA w) :=
+  forward_compat_msg E hs hA hB hxA huB hw _ sB w hrt
+
 /-- the A-view of `None` is `None` at every type -/
-theorem view_none (ρ : Rho) (A : Env) (t : PTy) : view ρ A t .none = .none := by
-  unfold view; rfl
+theorem view_none (ρ : Rho) (A : Env) (t : PTy) : view ρ A t .none = .none :=
+  StoneVerif.Rt.Compat.view_none ρ A t
+
+/-! ## Non-vacuity: a small pair of environments with one edit of every listed kind -/
+
+/-- external calls: any table will do (the theorems hold for every `Ext`) -/
+def E0 : Ext where
+  fltLt _ _ := false
+  fltIsNan _ := false
+  fltIsInf _ := false
+  fltOfInt _ := some 0
+  patMatch _ _ := true
+  b64enc s := s
+  b64dec s := some (some s)
+  strftime _ _ := ""
+  strptime _ _ := some 0
+  md5 s := s
+  reSearch _ _ := none
+  strOfInt _ := ""
+  strOfFlt _ := ""
+
+def tInt : PTy := .int {} "Int32" (-5) 5
+def tStrQ : PTy := .str { nullable := true } none none none
+def fA : FieldDef := ⟨"a", tInt, false, false, none, none⟩
+def fB : FieldDef := ⟨"b", tStrQ, true, false, none, none⟩                    -- added: b String?
+def fC : FieldDef := ⟨"c", .bool {}, false, false, some (.bool true), none⟩   -- added: c Boolean = true
+def fN : FieldDef := ⟨"n", .str {} none none none, false, false, none, none⟩
+def fU : FieldDef := ⟨"u", .union {} "ns.U", false, true, none, none⟩
+
+/-- the older spec -/
+def envA : Env := ⟨
+  [⟨"ns.S", [⟨"ns.S", [fA]⟩], none, false⟩,
+   ⟨"ns.H", [⟨"ns.H", [fU]⟩], none, false⟩,
+   ⟨"ns.R", [⟨"ns.R", [fA]⟩], some [(["file"], "ns.F", false)], true⟩,
+   ⟨"ns.F", [⟨"ns.R", [fA]⟩, ⟨"ns.F", [fN]⟩], none, false⟩],
+  [⟨"ns.U", [⟨"ns.U", [⟨"v", .void {}, none⟩, ⟨"w", .void {}, none⟩, ⟨"s", .struct {} "ns.S", none⟩,
+      ⟨"other", .void {}, none⟩]⟩], some "other"⟩]⟩
+
+/-- the newer spec: `ns.S` renamed `ns.T` with an optional and a defaulted field added; tag `n` added to the open union
+`ns.U`, its Void tag `w` given a type; subtype `ns.G` added under the catch-all root `ns.R` -/
+def envB : Env := ⟨
+  [⟨"ns.T", [⟨"ns.T", [fA, fB, fC]⟩], none, false⟩,
+   ⟨"ns.H", [⟨"ns.H", [fU]⟩], none, false⟩,
+   ⟨"ns.R", [⟨"ns.R", [fA]⟩], some [(["file"], "ns.F", false), (["link"], "ns.G", false)], true⟩,
+   ⟨"ns.F", [⟨"ns.R", [fA]⟩, ⟨"ns.F", [fN]⟩], none, false⟩,
+   ⟨"ns.G", [⟨"ns.R", [fA]⟩, ⟨"ns.G", [fN]⟩], none, false⟩],
+  [⟨"ns.U", [⟨"ns.U", [⟨"v", .void {}, none⟩, ⟨"w", tInt, none⟩, ⟨"n", tStrQ, none⟩, ⟨"s", .struct {} "ns.T", none⟩,
+      ⟨"other", .void {}, none⟩]⟩], some "other"⟩]⟩
+
+def rho0 : Rho := [("ns.S", "ns.T"), ("ns.H", "ns.H"), ("ns.R", "ns.R"), ("ns.F", "ns.F"), ("ns.U", "ns.U")]
+
+/-- the hypotheses of the theorems hold of the pair, at every type of the older spec -/
+example : envWF envA = true ∧ envWF envB = true ∧ envWFX envA = true ∧ envWFU envB = true ∧
+    compatEnv rho0 envA envB = true := by decide +kernel
+example : subB rho0 envA envB (.struct {} "ns.H") (.struct {} "ns.H") = true ∧
+    subB rho0 envA envB (.tree {} "ns.R") (.tree {} "ns.R") = true ∧
+    subB rho0 envA envB (.list {} (.union {} "ns.U") none none) (.list {} (.union {} "ns.U") none none) = true := by
+  decide +kernel
+
+/-- ... and the conclusions are not trivial: new fields inside a struct-typed union member inside a struct (dropped),
+a new tag (read as `other`), a payload on a tag that was Void (forgotten), a new subtype (read as the base struct). -/
+example :
+    decode E0 envB [] false (.struct {} "ns.H")
+      (.obj [("u", .obj [(".tag", .str "s"), ("a", .int 1), ("b", .str "x"), ("c", .bool false)])]) =
+      .ok (.struct "ns.H" [("u", .union "ns.U" "s" (.struct "ns.T" [("a", .int 1), ("b", .str "x"), ("c", .bool false)]))]) ∧
+    decode E0 envA [] false (.struct {} "ns.H")
+      (.obj [("u", .obj [(".tag", .str "s"), ("a", .int 1), ("b", .str "x"), ("c", .bool false)])]) =
+      .ok (.struct "ns.H" [("u", .union "ns.U" "s" (.struct "ns.S" [("a", .int 1)]))]) := ⟨rfl, rfl⟩
+example :
+    view rho0 envA (.struct {} "ns.H")
+      (.struct "ns.H" [("u", .union "ns.U" "s" (.struct "ns.T" [("a", .int 1), ("b", .str "x"), ("c", .bool false)]))]) =
+      .struct "ns.H" [("u", .union "ns.U" "s" (.struct "ns.S" [("a", .int 1)]))] := rfl
+example :
+    decode E0 envA [] false (.union {} "ns.U") (.obj [(".tag", .str "n"), ("n", .str "x")]) = .ok (.union "ns.U" "other" .none) ∧
+    decode E0 envA [] false (.union {} "ns.U") (.obj [(".tag", .str "w"), ("w", .int 3)]) = .ok (.union "ns.U" "w" .none) ∧
+    decode E0 envA [] false (.tree {} "ns.R") (.obj [(".tag", .str "link"), ("a", .int 2), ("n", .str "y")]) =
+      .ok (.struct "ns.R" [("a", .int 2)]) ∧
+    view rho0 envA (.union {} "ns.U") (.union "ns.U" "n" (.str "x")) = .union "ns.U" "other" .none ∧
+    view rho0 envA (.union {} "ns.U") (.union "ns.U" "w" (.int 3)) = .union "ns.U" "w" .none ∧
+    view rho0 envA (.tree {} "ns.R") (.struct "ns.G" [("a", .int 2), ("n", .str "y")]) = .struct "ns.R" [("a", .int 2)] := by
+  exact ⟨rfl, rfl, rfl, rfl, rfl, rfl⟩
+
+/-- each listed edit, alone, yields `compatEnv` (the harness additionally evaluates `compatEnv` on every generated pair) -/
+def envS (fields : List FieldDef) : Env := ⟨[⟨"ns.S", [⟨"ns.S", fields⟩], none, false⟩], []⟩
+def envU (tags : List TagDef) (ca : Option String) : Env := ⟨[], [⟨"ns.U", [⟨"ns.U", tags⟩], ca⟩]⟩
+def tagsU : List TagDef := [⟨"v", .void {}, none⟩, ⟨"other", .void {}, none⟩]
+
+example : compatEnv [("ns.S", "ns.S")] (envS [fA]) (envS [fA, fB]) = true := by decide +kernel          -- add optional field
+example : compatEnv [("ns.S", "ns.S")] (envS [fA]) (envS [fC, fA]) = true := by decide +kernel          -- add defaulted field
+example : compatEnv [("ns.S", "ns.S")] (envS [fA]) (envS [fA, fN]) = false := by decide +kernel         -- (a required one is refused)
+example : compatEnv [("ns.U", "ns.U")] (envU tagsU (some "other")) (envU (⟨"n", tInt, none⟩ :: tagsU) (some "other")) = true := by
+  decide +kernel                                                                                        -- add tag to open union
+example : compatEnv [("ns.U", "ns.U")] (envU [⟨"v", .void {}, none⟩] none) (envU [⟨"v", .void {}, none⟩, ⟨"n", tInt, none⟩] none) = false := by
+  decide +kernel                                                                                        -- (closed union: refused)
+example : compatEnv [("ns.U", "ns.U")] (envU tagsU (some "other")) (envU [⟨"v", tInt, none⟩, ⟨"other", .void {}, none⟩] (some "other")) = true := by
+  decide +kernel                                                                                        -- Void tag given a type
+example : compatEnv [("ns.S", "ns.Renamed")] (envS [fA]) ⟨[⟨"ns.Renamed", [⟨"ns.Renamed", [fA]⟩], none, false⟩], []⟩ = true := by
+  decide +kernel                                                                                        -- rename
 
 end StoneVerif.C07
